@@ -31,7 +31,7 @@ PROPS = {
     "C13": dict(suites=["seq", "seqfault", "exits"]),
     "C14": dict(suites=["split", "token", "store"], extra=["fuzzbuild"]),
     "C15": dict(suites=["seq", "seqfault", "exits"], extra=["ledger"]),
-    "C16": dict(suites=["exits", "seq", "crypt"], extra=["stackscan"]),
+    "C16": dict(suites=["exits", "seq", "crypt"], extra=["freewipe", "stackscan"]),
     "C17": dict(suites=["len", "words"]),
     "C18": dict(suites=["seq", "exits", "bday"], extra=["libc"]),
     "C19": dict(suites=["words", "token", "split", "auto", "crypt"], extra=["sgn"]),
